@@ -383,7 +383,7 @@ def run(ctx):
         "attributes each applied link writes are recorded from the real run (interposition on "
         "ApplyLinks.apply_link_between_residues) and fed to the model / the frame oracle",
         "expand_excl (C14): generated exclusions are passed through as a parameter",
-        "networkx adjacency order: the model's DFS reads the adjacency lists off the real MetaMolecule",
+        "networkx adjacency / edge order: the model's `graphEdges` reads the adjacency lists off the real MetaMolecule",
     ]
     ctx.assumptions += [
         "residue ids pairwise distinct and contiguous (the quantifier of C01); start >= 1",
